@@ -28,13 +28,13 @@ ASSUMPTIONS = ["torch.Generator/np.random.SeedSequence are deterministic functio
 REAL_VS_STUB = {"real": ["torchsde.BrownianInterval/BrownianPath/BrownianTree/ReverseBrownian", "trampoline",
                          "numpy SeedSequence", "torch kernels", "sdeint_adjoint (mode adjoint)"],
                 "stub": ["value cache wrapped by FaultyCache (forwarding)", "np.random.randint (entropy seam)"]}
-PROBES = ("repeat_compared", "repeat_after_fault", "repeat_after_refinement", "repeat_other_flags",
+PROBES = ("sibling_object", "repeat_compared", "repeat_after_fault", "repeat_after_refinement", "repeat_other_flags",
           "tiny_cache", "reverse_wrapper", "adjoint_backward_requery")
 STATE_MEASURE = "distinct final interval-tree shapes (hash of display_binary_tree dump)"
 
 ADJOINT_SHARE = 0.12
 MIX = dict(bm.DEFAULT_MIX)
-MIX.update(requery=6, sweep=3, adaptive=3, triple=1.5)
+MIX.update(requery=6, sweep=3, adaptive=3, triple=1.5, sib=0.6)
 
 
 def gen_case(seed, tier, idx):
@@ -57,6 +57,12 @@ def gen_case(seed, tier, idx):
         e.pop("faults", None)
         e["tag"] = "echo"
         ops.append(e)
+    if cfg["front"] not in ("interval", "reverse"):
+        ops = [o for o in ops if o["op"] != "sib"]
+    if cfg["entropy"] is None and cfg["levy"] in ("davie", "foster") and len(cfg["size"]) >= 2:
+        # default entropy: the whole interval with its Levy area, asked at the start and at the end
+        w = bm._q(dom[0], dom[1], True, True, tag="whole")
+        ops = [dict(w)] + ops + [dict(w)]
     bm.apply_warm_rep(cfg, ops)
     rate = bm.gen_fault_rate(st.get("faults"))
     bm.add_faults(st.get("faults"), ops, rate)
@@ -112,11 +118,30 @@ def run_case(case, keep_log=False):
     probes = {k: 0 for k in PROBES}
     faults_since = {}
     refined_since = {}
+    sib = None
     violation = None
     refinements = 0
     try:
         for i, op in enumerate(case["ops"]):
             if bm.apply_env(op):
+                continue
+            if op["op"] == "sib":
+                if sib is None:
+                    scfg = dict(cfg, front="interval")
+                    if len(cfg["size"]) >= 1:
+                        scfg["size"] = [1] + list(cfg["size"][1:]) if cfg["size"][0] != 1 else [2] + list(cfg["size"][1:])
+                    else:
+                        scfg["dtype"] = "float32" if cfg["dtype"] == "float64" else "float64"
+                    scfg["supply_W"] = scfg["supply_H"] = False
+                    sib = bm.BMExec(bm.build(scfg, st.get("entropy_sib"), faults=False), EventLog(False), monitor_budget=None)
+                    probes["sibling_object"] = 1
+                a_, b_ = xf(op["ta"]), xf(op["tb"])
+                if cfg["front"] == "reverse":
+                    a_, b_ = -b_, -a_
+                try:
+                    sib.raw(a_, b_, False, False, None, i)
+                except bm.CaseTooExpensive:
+                    pass
                 continue
             td0 = getattr(built.interval, "_tree_dt", None) if built.interval is not None else None
             if op["op"] == "point":
